@@ -270,6 +270,7 @@ impl Runner {
             .filter(|i| !i.is_up()).map(|i| i.idx).collect();
         let ctx = GenCtx {
             down: &down,
+            cut: crate::net::is_cut(),
             model: &self.model,
             cfg: &self.gen_cfg,
             n_insts: self.world.insts.len(),
@@ -376,17 +377,42 @@ impl Runner {
         {
             return "skip:down".into()
         }
+        if matches!(op, Op::NetCut | Op::NetRestore) {
+            let cut = matches!(op, Op::NetCut);
+            if crate::net::is_cut() == cut {
+                return "skip:same".into()
+            }
+            crate::net::set_cut(cut);
+            self.stat(if cut { "net_cut" } else { "net_restore" });
+            return if cut { "cut" } else { "restored" }.into()
+        }
+        // The operator's set-up exchanges between two instances need the
+        // link.
+        if crate::net::is_cut() {
+            let across = match op {
+                Op::CreateCa { inst, parent_inst, .. }
+                | Op::AddParent { inst, parent_inst, .. } => {
+                    inst != parent_inst || *inst != 0
+                }
+                _ => false,
+            };
+            if across {
+                return "skip:cut".into()
+            }
+        }
         // Deleting a CA or removing a parent asks the parents for
         // revocation "best effort"; with a parent unreachable that leaves
         // its certificate behind (known finding under C08), so these two
         // wait for the partition to heal.
         if let Op::DeleteCa { inst, name } | Op::RemoveParent { inst, name, .. } = op {
+            let cut = crate::net::is_cut();
             let parent_down = self.model.ca(*inst, name).map(|ca| {
                 ca.parents.values().any(|p| {
                     p.parent_inst < self.world.insts.len()
-                        && !self.world.inst(p.parent_inst).is_up()
+                        && (!self.world.inst(p.parent_inst).is_up()
+                            || (cut && p.parent_inst != *inst))
                 })
-            }).unwrap_or(false);
+            }).unwrap_or(false) || (cut && *inst != 0);
             if parent_down {
                 return "skip:parent_down".into()
             }
@@ -570,7 +596,8 @@ impl Runner {
                 };
                 Self::label(&res)
             }
-            Op::Partition { .. } | Op::Heal { .. } => "handled".into(),
+            Op::Partition { .. } | Op::Heal { .. } | Op::NetCut
+            | Op::NetRestore => "handled".into(),
             Op::RrdpSessionReset { inst } => {
                 let i = self.world.inst(inst);
                 i.enter();
@@ -1751,7 +1778,7 @@ impl Runner {
         // their parents do (and vice versa): the statement about the tree
         // is evaluated once the partition has healed and background work
         // has caught up.
-        if self.world.insts.iter().any(|i| !i.is_up()) {
+        if self.world.insts.iter().any(|i| !i.is_up()) || crate::net::is_cut() {
             self.stat("caught_up_during_partition");
             return
         }
@@ -1801,8 +1828,12 @@ impl Runner {
                 self.in_second_chance = true;
                 self.net_faults_seen = crate::net::faults_fired();
                 let was_quiet = crate::net::set_quiet(true);
-                let mut ok = true;
-                for _ in 0..2 {
+                // One refresh round carries a change one level down; the
+                // tree may be several levels deep (a second parent can put
+                // a whole sub-tree below another one). Stop as soon as the
+                // tree is clean, give up after six rounds.
+                let mut last: Option<(Vec<(String, String)>, RpResult)> = None;
+                for round in 0..6 {
                     for idx in 0..self.world.insts.len() {
                         if self.world.inst(idx).is_up() {
                             self.world.inst(idx).enter();
@@ -1813,22 +1844,34 @@ impl Runner {
                     }
                     match crate::oracles::pump_stepwise(self) {
                         Guarded::Ok(true) => { }
-                        _ => { ok = false; break }
+                        _ => { last = None; break }
+                    }
+                    if round == 0 {
+                        continue
+                    }
+                    self.sync_model_after_pump();
+                    let excluded = self.excluded_dirs(repo_inst);
+                    match self.world.rp_walk(repo_inst, &excluded) {
+                        Ok(rpres2) => {
+                            let found2 = self.check_c01(repo_inst, &rpres2);
+                            let clean = found2.is_empty();
+                            last = Some((found2, rpres2));
+                            if clean {
+                                break
+                            }
+                            self.stat("c01.second_chance_extra_round");
+                        }
+                        Err(_) => { last = None; break }
                     }
                 }
                 self.in_second_chance = false;
                 crate::net::set_quiet(was_quiet);
-                if ok {
-                    self.sync_model_after_pump();
-                    let excluded = self.excluded_dirs(repo_inst);
-                    if let Ok(rpres2) = self.world.rp_walk(repo_inst, &excluded) {
-                        let found2 = self.check_c01(repo_inst, &rpres2);
-                        for (rule, detail) in found2 {
-                            self.violation("C01", &rule, detail);
-                        }
-                        crate::oracles::at_caught_up(self, repo_inst, &rpres2);
-                        return
+                if let Some((found2, rpres2)) = last {
+                    for (rule, detail) in found2 {
+                        self.violation("C01", &rule, detail);
                     }
+                    crate::oracles::at_caught_up(self, repo_inst, &rpres2);
+                    return
                 }
                 for (rule, detail) in found {
                     self.violation("C01", &rule, detail);
